@@ -2,6 +2,7 @@
 (* C03, role R2: adversarial input families as TLA+ sets, enumerated by TLC (exhaustive and reproducible). *)
 (*   soup    : every sequence of <= K spellings over a 14-token vocabulary (joined by single spaces)        *)
 (*   graphs  : every inheritance digraph on 3 classes (self loops, cycles, diamonds), with a use site       *)
+(*   ggraphs : inheritance graphs over GENERIC classes (other instantiations, own type parameter as parent)     *)
 (*   shapes  : deep nesting, long files, empty tuples / patterns in binder positions, braces and quotes in  *)
 (*             strings, lone CR, non-ASCII, tabs, huge literals                                             *)
 EXTENDS Naturals, Sequences, FiniteSets, TLC, Json
@@ -47,9 +48,21 @@ Shapes ==
           "def x := [y | y in x]", "def x := {y => y | y in [1]}", "def x := [1, 2][5]", "def x := {1: 2}", "def x := {1 => 2}[1]", "def x := (1, 2)[0]",
           "print(", "print)", "print(print)", "print(print(1))", "input(1)(2)", "Int(\"x\")", "Int()", "Str(1, 2, 3)", "None()", "None.x", "None := 1", "True := False", "1 := 2", "f() := 1" }
 
+\* generic inheritance graphs: classes A[T], B[U], C; each takes <= 2 parents from a pool that contains other instantiations, the same
+\* class at another argument, and its own type parameter
+Small(S) == {X \in SUBSET S : Cardinality(X) <= 2}
+PoolA == {"B[T]", "B[Int]", "C", "A[Int]", "T"}
+PoolB == {"A[U]", "A[Int]", "C", "B[Int]", "U"}
+PoolC == {"A[Int]", "B[Int]", "A[C]", "B[C]"}
+Order == <<"A[Int]", "A[U]", "A[C]", "B[T]", "B[Int]", "B[C]", "C", "T", "U">>
+JoinSet(S) == LET seq == SelectSeq(Order, LAMBDA n : n \in S) IN
+              IF Len(seq) = 0 THEN "" ELSE ": " \o (IF Len(seq) = 1 THEN seq[1] ELSE seq[1] \o ", " \o seq[2])
+GGraphSrc(a, b, cc) == "class A[T]" \o JoinSet(a) \o "\nclass B[U]" \o JoinSet(b) \o "\nclass C" \o JoinSet(cc) \o "\ndef x := C()\n"
+
 VARIABLE c
 Init == CASE Family = "soup"   -> c = [fam |-> "soup", parts |-> <<>>]
           [] Family = "graphs" -> \E g \in [1..3 -> SUBSET {"A", "B", "C"}] : c = [fam |-> "graphs", src |-> GraphSrc(g)]
+          [] Family = "ggraphs" -> \E a \in Small(PoolA), b \in Small(PoolB), cc \in Small(PoolC) : c = [fam |-> "ggraphs", src |-> GGraphSrc(a, b, cc)]
           [] Family = "shapes" -> \E s \in Shapes : c = [fam |-> "shapes", src |-> s]
 Next == /\ Family = "soup" /\ Len(c.parts) < K
         /\ \E j \in 1..Len(Vocab) : c' = [c EXCEPT !.parts = Append(c.parts, Vocab[j])]
